@@ -371,7 +371,7 @@ def _freeze(env: dict, stmt: ast.AST) -> None:
         return u(_subst(e, env))
     for n in ast.walk(stmt):
         if isinstance(n, ast.Attribute) and isinstance(n.ctx, (ast.Store, ast.Del)):
-            attrs.add(n.attr)
+            attrs.add((base(n.value), n.attr))
         if isinstance(n, ast.Subscript) and isinstance(n.ctx, (ast.Store, ast.Del)):
             bases.add(base(n.value))
         if isinstance(n, ast.AugAssign):
@@ -384,11 +384,11 @@ def _freeze(env: dict, stmt: ast.AST) -> None:
     for k, v in list(env.items()):
         if isinstance(v, ast.Call) and u(v.func) == "old_":
             continue
-        if norm.is_reference(v) and not any(isinstance(n, ast.Subscript) for n in ast.walk(v)) and not any(isinstance(n, ast.Attribute) and n.attr in attrs for n in ast.walk(v)):
+        if norm.is_reference(v) and not any(isinstance(n, ast.Subscript) for n in ast.walk(v)) and not any(isinstance(n, ast.Attribute) and (u(n.value), n.attr) in attrs for n in ast.walk(v)):
             continue            # an alias keeps denoting the same object
         hit = False
         for n in ast.walk(v):
-            if isinstance(n, ast.Attribute) and n.attr in attrs:
+            if isinstance(n, ast.Attribute) and (u(n.value), n.attr) in attrs:
                 hit = True
             if isinstance(n, (ast.Attribute, ast.Name, ast.Subscript)) and u(n) in bases:
                 hit = True
